@@ -75,6 +75,7 @@ var keyFamilies = [][]string{
 	{"/a/{x}", "/a/{y}", "/a/b", "/a/{x}/b", "/a/{y}/c", "/a"},             // contains conflicting keys
 	{"/s/c", "/s/a", "/s/e", "/s/b", "/s/d", "/s/{x}", "/s/*{y}", "/s/ab"}, // many siblings under one node (children slices grow and are re-sorted)
 	{"/s/m", "/s/k", "/s/o", "/s/j", "/s/n", "/s/l", "/s/p", "/s/i"},
+	{"/i/*{w}/r/{id}", "/i/*{w}/r", "/i/a/r/b", "/i/{p}", "/i/a", "i.b/*{w}/r/{id}"}, // infix catch-alls followed by a parameter: lookups below them run on a second pooled context
 }
 
 func buildConcWorld(src sim.Source, res *Result, tsMode int) *concWorld {
